@@ -153,7 +153,14 @@ func cmdCheck(args []string) {
 			}
 			q := o.Script.Render(o.N, o.Hyp, o.Goal, gv)
 			o.QueryFile = writeQuery(qdir, o.Name, q)
-			o.Res = solve(o.QueryFile, timeout, *seed, thorough)
+			first := timeout
+			if len(o.Splits) > 0 && !thorough {
+				first = 6
+			}
+			o.Res = solve(o.QueryFile, first, *seed, thorough)
+			if (o.Res.Status == "timeout" || o.Res.Status == "unknown") && len(o.Splits) > 0 {
+				o.Res = solveSplit(o, q, qdir, timeout, *seed)
+			}
 			if o.Res.Status == "sat" && !o.ExpectSat {
 				// complete the model over the whole path (preconditions included)
 				fq := writeQuery(qdir, o.Name+"_full", o.Script.RenderFull(o.N, o.Hyp, o.Goal, gv))
@@ -352,4 +359,60 @@ func writeEvidence(rep *Report, verif string) {
 	_ = os.MkdirAll(filepath.Join(verif, "evidence"), 0o755)
 	b, _ := json.MarshalIndent(ev, "", " ")
 	_ = os.WriteFile(filepath.Join(verif, "evidence", rep.Prop+".json"), append(b, '\n'), 0o644)
+}
+
+// solveSplit: case analysis on the branch conditions that occur in the query
+// (the solver is good at straight-line string constraints and poor at large
+// if-then-else terms); every case must be unsat.
+func solveSplit(o *Obligation, query, qdir string, timeout, seed int) SolverResult {
+	var used []string
+	seen := map[string]bool{}
+	for i := len(o.Splits) - 1; i >= 0 && len(used) < 5; i-- {
+		c := o.Splits[i]
+		if seen[c] || !mentionsAll(query, c) {
+			continue
+		}
+		seen[c] = true
+		used = append(used, c)
+	}
+	if len(used) == 0 {
+		return SolverResult{Status: "timeout", Backend: "split(0)"}
+	}
+	cut := strings.LastIndex(query, "(check-sat)")
+	head, tail := query[:cut], query[cut:]
+	total := 0.0
+	t0 := time.Now()
+	backends := map[string]bool{}
+	for mask := 0; mask < 1<<len(used); mask++ {
+		var extra strings.Builder
+		for i, c := range used {
+			if mask&(1<<i) != 0 {
+				extra.WriteString("(assert " + c + ")\n")
+			} else {
+				extra.WriteString("(assert " + sNot(c) + ")\n")
+			}
+		}
+		f := writeQuery(qdir, fmt.Sprintf("%s_case%d", o.Name, mask), head+extra.String()+tail)
+		r := solve(f, timeout, seed, false)
+		total += r.TimeS
+		backends[r.Backend] = true
+		if r.Status != "unsat" {
+			r.TimeS = time.Since(t0).Seconds()
+			r.Backend += fmt.Sprintf(" (case %d of %d-way split)", mask, 1<<len(used))
+			return r
+		}
+	}
+	return SolverResult{Status: "unsat", Backend: fmt.Sprintf("split(%d):%s", 1<<len(used), strings.Join(sortedKeys(backends), "+")), TimeS: time.Since(t0).Seconds()}
+}
+
+func mentionsAll(query, term string) bool {
+	for _, y := range symbolsOf(term) {
+		if smtBuiltin[y] {
+			continue
+		}
+		if strings.Contains(y, "!") && !strings.Contains(query, y) {
+			return false
+		}
+	}
+	return true
 }
